@@ -25,19 +25,22 @@ theorem encode_before_swap :
     (Csvq.Gen.fxTransactionCommit.dropWhile (· ≠ "handler_commit")).all (· ≠ "encode") = true := by decide
 
 /-- scanning a loop body of Transaction.Commit: is every `encode` preceded, inside its own loop iteration,
-    by a `truncate` of the file it writes into? -/
-def encodeAfterTruncate : List String → Bool → Bool
-  | [], _ => true
-  | "loop{" :: rest, _ => encodeAfterTruncate rest false
-  | "truncate" :: rest, _ => encodeAfterTruncate rest true
-  | "encode" :: rest, t => t && encodeAfterTruncate rest t
-  | _ :: rest, t => encodeAfterTruncate rest t
+    by a `truncate` of the file it writes into AND a `seek` back to its start (truncating does not move the
+    write position)? -/
+def encodeAfterReset : List String → Bool → Bool → Bool
+  | [], _, _ => true
+  | "loop{" :: rest, _, _ => encodeAfterReset rest false false
+  | "truncate" :: rest, _, k => encodeAfterReset rest true k
+  | "seek" :: rest, t, _ => encodeAfterReset rest t true
+  | "encode" :: rest, t, k => t && k && encodeAfterReset rest t k
+  | _ :: rest, t, k => encodeAfterReset rest t k
 
-/-- each table is encoded into an EMPTIED file: a temporary file that still holds the bytes of an earlier,
-    failed COMMIT of the same session is cut to length 0 first, so the file swapped in is exactly the
-    new encoding and never "new records followed by stale ones" -/
+/-- each table is encoded into an EMPTIED file from its START: a temporary file that still holds the bytes of
+    an earlier, failed COMMIT of the same session is cut to length 0 and the write position is put back to 0
+    first, so the file swapped in is exactly the new encoding — never "new records followed by stale ones",
+    never a block of NUL bytes in front of them -/
 theorem gen_encode_into_emptied_file :
-    encodeAfterTruncate Csvq.Gen.fxTransactionCommit false = true ∧
+    encodeAfterReset Csvq.Gen.fxTransactionCommit false false = true ∧
     (Csvq.Gen.fxTransactionCommit.filter (· = "encode")).length = 2 := by decide
 
 /-- the structured effect list of Transaction.Commit is the reviewed one -/
